@@ -37,13 +37,16 @@ def edit_sites(mm, n, t, path, out, rng):
                 declared = [v["value"] for v in e["values"]]
                 is_str = e["type"]["name"] == "string"
                 cands = ["__not_a_member__", ""] if is_str else [987654, max(declared) + 1, 0, -1]
+                if is_str:
+                    d0 = rng.choice(declared)
+                    cands += [d0.upper(), d0.title(), d0.swapcase(), d0 + " "]  # look-alikes of a member
                 # hostile: values that are members of OTHER enumerations of the same base kind
                 foreign = sorted({v["value"] for o in mm.E.values() if o is not e for v in o["values"] if isinstance(v["value"], str) == is_str and not isinstance(v["value"], bool)} - set(declared), key=str)
                 if foreign:
                     cands += rng.sample(foreign, min(2, len(foreign)))
                 n = 0
                 for v in cands:
-                    if v not in declared and n < 4:
+                    if v not in declared and n < 7:
                         out.append((path + [pn], "out-of-enum", v))
                         n += 1
             elif pt["kind"] == "stringLiteral":
@@ -89,11 +92,11 @@ def shard(i, n, args):
         e = fails.setdefault(key, {"count": 0, "witness": wit})
         e["count"] += 1
 
-    for root in ctx.select_roots(py, i, n, kinds=("S",)):
+    for root in ctx.select_roots(py, i, n, kinds=("S", "REQ", "RESP", "NOTIF")):
         if root.cls is None:
             continue
         nrand = 3 if tier == "quick" else 80
-        for lab, tree, site, alt in all_cases(mm, root, seed, tier, n_random=nrand, forced=(tier != "quick")):
+        for lab, tree, site, alt in all_cases(mm, root, seed, tier, n_random=nrand, forced=(tier != "quick" or root.kind == "RESP")):
             if lab == "maximal3" and tier == "quick":
                 continue
             j = to_json(tree)
@@ -110,7 +113,14 @@ def shard(i, n, args):
                 if not so.valid(j, root.t):
                     res["second_opinion_disagreements"].append({"root": root.label, "json": j, "mm": True, "schema": False})
             sites = []
-            edit_sites(mm, tree, root.t, [], sites, r)
+            if root.kind == "S":
+                edit_sites(mm, tree, root.t, [], sites, r)
+            else:
+                # structures nested in a message: the envelope's own fields are not "structure properties"
+                for key in ("params", "result"):
+                    if key in tree[2]:
+                        pt = next(p["type"] for p in root.t["value"]["properties"] if p["name"] == key)
+                        edit_sites(mm, tree[2][key], pt, [key], sites, r)
             for path, kind, v in sites:
                 res["edits"] += 1
                 jp = apply_edit(j, path, kind, v)
